@@ -9,6 +9,7 @@ import (
 	"strings"
 	"sync"
 	"sync/atomic"
+	"time"
 )
 
 // AsmCase is one program exported by an MC_* model together with the
@@ -59,6 +60,10 @@ type asmReplayer struct {
 	sharedFiles map[string][]string
 	nontriv     func(cs *AsmCase) bool
 	onOutput    func(cs *AsmCase, out string) // called with every successfully generated regex
+	traceMu     sync.Mutex
+	traceFiles  []string // Direction B: traces recorded by the CLI runs
+	traceSrc    []string
+	traceSeq    int64
 }
 
 func (c *Ctx) newAsmReplayer(keepMod uint64, cliEvery int64) (*asmReplayer, error) {
@@ -169,7 +174,38 @@ func (r *asmReplayer) finish() error {
 	close(r.ch)
 	r.wg.Wait()
 	r.pool.close()
-	return r.err
+	if r.err != nil {
+		return r.err
+	}
+	// Direction B: the executions recorded by the CLI runs must be behaviours of AsmShape
+	var files, srcs []string
+	for i, f := range r.traceFiles {
+		if _, err := os.Stat(f); err == nil {
+			files = append(files, f)
+			srcs = append(srcs, r.traceSrc[i])
+		}
+	}
+	if len(files) == 0 {
+		return nil
+	}
+	tr, err := r.c.validateAsmTraces(files, srcs)
+	for _, f := range files {
+		os.Remove(f)
+	}
+	if err != nil {
+		return err
+	}
+	r.c.mu.Lock()
+	prev, _ := r.c.Cov["recorded_traces_validated"].(int)
+	r.c.Cov["recorded_traces_validated"] = prev + tr.Processes
+	pe, _ := r.c.Cov["recorded_events_validated"].(int)
+	r.c.Cov["recorded_events_validated"] = pe + tr.Consumed
+	r.c.mu.Unlock()
+	if !tr.Accepted {
+		r.c.violation("trace", map[string]any{"why": "a recorded execution of the assembler is not a behaviour of AsmShape", "program": tr.RejectedSrc,
+			"rejected_event": tr.RejectedEv, "event_index": tr.Consumed, "spec_state": tr.State})
+	}
+	return nil
 }
 
 func nontrivialProgram(cs *AsmCase) bool {
@@ -215,7 +251,22 @@ type asmObs struct {
 }
 
 func (r *asmReplayer) viaCLI(root, text string) asmObs {
-	res := r.c.runCLI(root, text, "-d", root, "regex", "generate", "-")
+	// every CLI execution records its transitions (hooks of the verif build)
+	n := atomic.AddInt64(&r.traceSeq, 1)
+	var env []string
+	limit := int64(1200)
+	if r.c.Tier == "thorough" {
+		limit = 6000
+	}
+	if n <= limit {
+		tf := filepath.Join(r.c.Scratch, fmt.Sprintf("trace-%p-%d.ndjson", r, n))
+		env = []string{"CRS_VERIF_TRACE=" + tf}
+		r.traceMu.Lock()
+		r.traceFiles = append(r.traceFiles, tf)
+		r.traceSrc = append(r.traceSrc, text)
+		r.traceMu.Unlock()
+	}
+	res := r.c.runCLIEnv(root, text, env, 20*time.Second, "-d", root, "regex", "generate", "-")
 	atomic.AddInt64(&r.cliRuns, 1)
 	if res.Exit != 0 || res.TimedOut {
 		return asmObs{Out: res.Stdout, Fail: fmt.Sprintf("exit %d: %s", res.Exit, lastLine(res.Stderr))}
